@@ -22,6 +22,8 @@ class ScalarOps (α : Type) where
   trunc : α → Int
   /-- `round(x)`: nearest integer, ties to even -/
   roundHE : α → Int
+  /-- Python's built-in `sum` over `float`s (compensated since CPython 3.12; the plain sum over a field) -/
+  pySum : List α → α
 
 export ScalarOps (ofInt)
 
@@ -51,7 +53,15 @@ def Float.roundHalfEven (x : Float) : Int :=
   let fi := f.truncInt
   if d < 0.5 then fi else if d > 0.5 then fi + 1 else if fi % 2 == 0 then fi else fi + 1
 
+/-- CPython ≥ 3.12 `sum()` over floats: Neumaier's compensated summation (`Python/bltinmodule.c`) -/
+def Float.neumaierSum (l : List Float) : Float :=
+  let r := l.foldl (fun (p : Float × Float) x =>
+    let t := p.1 + x
+    if Float.abs p.1 >= Float.abs x then (t, p.2 + ((p.1 - t) + x)) else (t, p.2 + ((x - t) + p.1))) (0.0, 0.0)
+  if r.2 != 0.0 && r.2.isFinite then r.1 + r.2 else r.1
+
 instance : ScalarOps Float where
+  pySum := Float.neumaierSum
   ofInt := Float.ofInt
   floor := Float.floor
   nextPow2 := Float.nextPow2
